@@ -17,7 +17,7 @@ from hypothesis import strategies as st
 from vlib.core import Outcome, Sub
 
 PROPERTY = "C12"
-RULE = ("history: one built-in Function class (all 37 classes of Function.py, composites wrap drawn inner classes) with "
+RULE = ("history: one built-in Function class (all 33 concrete classes of Function.py, composites wrap drawn inner classes) with "
         "drawn parameters, d=1..4, a pool of 1..8 points (tuples of Python floats; coordinates drawn from the class's "
         "kink/border values, a dyadic grid of its domain, or arbitrary floats) and 1..25 operations from {single call "
         "(tuple/list/ndarray), batch call (0..8 points incl. duplicates and points seen before; tuples/lists/ndarray), "
